@@ -83,7 +83,7 @@ struct Run {
                      {"aec", exp->get_block_aec_count()}, {"mm", exp->get_block_mm_count()},
                      {"bw", exp->get_blocks_written_count()}, {"active", exp->get_active_block_parameters()}};
     }
-    void emit_out(const std::string& why, const std::string& path) {
+    void emit_out(const std::string& why, const std::string& path, bool keep_file = false) {
         bool ok = true;
         std::string data = decompress(path, comp, ok);
         json ev = {{"e", "OUT"}, {"why", why}, {"raw_ok", ok}, {"bytes", vh::segs(data)}};
@@ -95,7 +95,7 @@ struct Run {
             std::string kp = std::string(keep) + "/h" + std::to_string(history_no) + "_" + std::to_string(kept++) + ".cdns";
             std::ofstream o(kp, std::ios::binary); o.write(data.data(), data.size());
         }
-        unlink(path.c_str());
+        if (!keep_file) unlink(path.c_str());
     }
     uint64_t history_no = 0;
     int kept = 0;
@@ -109,8 +109,17 @@ struct Run {
             exp.reset(new CdnsExporter(fp, fd, cc()));
         }
     }
+    bool last_rot_mismatch = false;
+    // rotation whose argument is of the other kind than the constructor's (a name for a descriptor exporter)
+    std::size_t rotate_mismatch(bool exp_block) {
+        std::size_t r = exp->rotate_output(fresh() + ".never", exp_block);
+        pending_out = cur_path;          // what the application believes it has just closed
+        last_rot_mismatch = true;
+        return r;
+    }
     std::size_t rotate(bool exp_block) {
         std::size_t r;
+        last_rot_mismatch = false;
         if (outkind == "file") {
             std::string old = cur_name;
             std::string next = fresh();
@@ -152,6 +161,7 @@ struct Run {
                 else if (o == "aec") ret = exp->buffer_aec(vr::aec_in(op["r"]), st);
                 else if (o == "mm") ret = exp->buffer_mm(vr::mm_in(op["r"]), st);
                 else if (o == "wb") ret = exp->write_block();
+                else if (o == "rot" && op.value("mismatch", false) && outkind == "fd") ret = rotate_mismatch(op.value("export", false));
                 else if (o == "rot") ret = rotate(op.value("export", false));
                 else if (o == "addbp") { BlockParameters bp = vr::bp_in(op["bp"]); ret = exp->add_block_parameters(bp); mybps.push_back(bp); }
                 else if (o == "setbp") ret = exp->set_active_block_parameters(static_cast<index_t>(op["i"].get<uint64_t>())) ? 1 : 0;
@@ -184,7 +194,8 @@ struct Run {
             ev["xcnt"] = {{"items", ext->get_item_count()}, {"qr", ext->get_qr_count()}, {"aec", ext->get_aec_count()},
                           {"mm", ext->get_mm_count()}, {"bpi", ext->get_block_parameters_index()}};
             tr->emit(ev);
-            if (!pending_out.empty()) emit_out("rot", pending_out);
+            if (!pending_out.empty()) emit_out("rot", pending_out, last_rot_mismatch);
+            last_rot_mismatch = false;
         }
         // destruction closes the last output
         std::string last = outkind == "file" ? cur_name + suffix() : cur_path;
